@@ -955,10 +955,374 @@ static __attribute__((noinline)) void once_memory(void)
     CK(vrt_lib_live() == 0, "once.memory.leak", "library blocks left");
 }
 
-static const struct { const char *name; void (*f)(void); void (*once)(void); } fam[] = {
-    { "trees", f_trees, once_trees }, { "heap", f_heap, once_heap }, { "hash", f_hash, once_hash }, { "map", f_map, once_map },
-    { "vector", f_vector, once_vector }, { "string", f_string, once_string },
-    { "dlist", f_dlist, once_dlist }, { "slist", f_slist, once_slist }, { "array", f_array, once_array }, { "memory", f_memory, once_memory },
+/* ---- macro arguments are expressions, member designators need not be plain identifiers ----
+ * The DECLARE_ / _INITIALIZER macros take a type, a member designator, a comparison function and a priv pointer.  A client
+ * may pass `table + 1` or `desc ? cmp_a : cmp_b` for the pointers and `in.node` or `nodes[2]` for the member (offsetof
+ * accepts both).  A macro body that does not parenthesise a parameter, or pastes the member name, behaves for plain
+ * identifiers only.  The containers are declared through the macros with such arguments (automatic storage, so any
+ * expression is allowed) and then used; the comparison function checks the priv it receives. */
+struct mel {
+    long pad;
+    struct { int x; struct cstl_bintree_node bn; } in;
+    struct cstl_rbtree_node rn[3];
+    struct { struct cstl_heap_node hn; } deep[2];
+    struct cstl_dlist_node dn[2];
+    struct { struct cstl_slist_node sn; } s;
+    struct cstl_hash_node xn[2];
+    int key;
+};
+static long privtab[4];
+static const void *mcmp_priv_seen;
+static int mcmp_calls;
+static int mcmp(const void *a, const void *b, void *p)
+{
+    const struct mel *x = a, *y = b;
+    mcmp_priv_seen = p; mcmp_calls++;
+    return (x->key > y->key) - (x->key < y->key);
+}
+static int mcmp_desc(const void *a, const void *b, void *p) { return -mcmp(a, b, p); }
+static volatile int macro_sel = 1;
+#define MCK_PRIV(what) CK(mcmp_calls > 0 && mcmp_priv_seen == (const void *)&privtab[1], "macro." what ".priv", \
+        "the comparison function of a container declared with PRIV = `privtab + 1` received %p, not &privtab[1] = %p", mcmp_priv_seen, (void *)&privtab[1])
+static struct mel *mkm(int n)
+{
+    struct mel *m = vrt_alloc((size_t)n * sizeof(*m));
+    int i;
+    memset(m, 0x6b, (size_t)n * sizeof(*m));
+    for (i = 0; i < n; i++) m[i].key = (i * 7) % n;
+    mcmp_calls = 0; mcmp_priv_seen = NULL;
+    return m;
+}
+static __attribute__((noinline)) void macro_trees(void)
+{
+    DECLARE_CSTL_BINTREE(bt, struct mel, in.bn, macro_sel ? mcmp : mcmp_desc, privtab + 1);
+    DECLARE_CSTL_RBTREE(rt, struct mel, rn[2], macro_sel ? mcmp : mcmp_desc, privtab + 1);
+    struct mel *m = mkm(9), probe;
+    int i;
+    VRT_OP0("bintree.insert", "tree declared by macro with expression arguments and a nested / array member designator");
+    for (i = 0; i < 9; i++) { cstl_bintree_insert(&bt, &m[i], NULL); cstl_rbtree_insert(&rt, &m[i], NULL); }
+    MCK_PRIV("trees");
+    probe.key = 5;
+    CK(cstl_bintree_size(&bt) == 9 && cstl_rbtree_size(&rt) == 9 && cstl_bintree_find(&bt, &probe, NULL) == &m[2] && cstl_rbtree_find(&rt, &probe, NULL) == &m[2],
+       "macro.trees.find", "find in a tree declared by macro with member designators in.bn / rn[2] did not return the element with key 5");
+    for (i = 0; i < 9; i++) CK(cstl_bintree_erase(&bt, &m[i]) == &m[i] && cstl_rbtree_erase(&rt, &m[i]) == &m[i], "macro.trees.erase", "erase of element %d", i);
+    vrt_free(m);
+    VRT_COUNT("reread.macro-declared-containers");
+}
+static __attribute__((noinline)) void macro_heap(void)
+{
+    DECLARE_CSTL_HEAP(hp, struct mel, deep[1].hn, macro_sel ? mcmp : mcmp_desc, privtab + 1);
+    struct mel *m = mkm(9);
+    int i;
+    VRT_OP0("heap.push", "heap declared by macro with expression arguments and a nested member designator");
+    for (i = 0; i < 9; i++) cstl_heap_push(&hp, &m[i]);
+    MCK_PRIV("heap");
+    for (i = 8; i >= 0; i--) { const struct mel *t = cstl_heap_pop(&hp); CK(t != NULL && t->key == i && t >= m && t < m + 9, "macro.heap.pop", "pop returned key %d, expected %d", t ? t->key : -1, i); }
+    CK(cstl_heap_pop(&hp) == NULL, "macro.heap.pop", "pop on the emptied heap");
+    vrt_free(m);
+    VRT_COUNT("reread.macro-declared-containers");
+}
+static __attribute__((noinline)) void macro_dlist(void)
+{
+    DECLARE_CSTL_DLIST(dl, struct mel, dn[1]);
+    struct mel *m = mkm(5);
+    int i;
+    VRT_OP0("dlist.push_back", "list declared by macro with an array member designator");
+    for (i = 0; i < 5; i++) cstl_dlist_push_back(&dl, &m[i]);
+    cstl_dlist_sort(&dl, macro_sel ? mcmp : mcmp_desc, privtab + 1);
+    MCK_PRIV("dlist");
+    CK(cstl_dlist_size(&dl) == 5 && ((struct mel *)cstl_dlist_front(&dl))->key == 0 && ((struct mel *)cstl_dlist_back(&dl))->key == 4, "macro.dlist.sort", "front/back after sort");
+    for (i = 0; i < 5; i++) { const struct mel *t = cstl_dlist_pop_front(&dl); CK(t != NULL && t->key == i, "macro.dlist.pop", "pop_front returned key %d, expected %d", t ? t->key : -1, i); }
+    vrt_free(m);
+    VRT_COUNT("reread.macro-declared-containers");
+}
+static __attribute__((noinline)) void macro_slist(void)
+{
+    DECLARE_CSTL_SLIST(sl, struct mel, s.sn);
+    struct mel *m = mkm(5);
+    int i;
+    VRT_OP0("slist.push_back", "list declared by macro with a nested member designator");
+    for (i = 0; i < 5; i++) cstl_slist_push_back(&sl, &m[i]);
+    cstl_slist_sort(&sl, macro_sel ? mcmp : mcmp_desc, privtab + 1);
+    MCK_PRIV("slist");
+    CK(cstl_slist_size(&sl) == 5 && ((struct mel *)cstl_slist_front(&sl))->key == 0 && ((struct mel *)cstl_slist_back(&sl))->key == 4, "macro.slist.sort", "front/back after sort");
+    for (i = 0; i < 5; i++) { const struct mel *t = cstl_slist_pop_front(&sl); CK(t != NULL && t->key == i, "macro.slist.pop", "pop_front returned key %d, expected %d", t ? t->key : -1, i); }
+    vrt_free(m);
+    VRT_COUNT("reread.macro-declared-containers");
+}
+static __attribute__((noinline)) void macro_hash(void)
+{
+    DECLARE_CSTL_HASH(hs, struct mel, xn[1]);
+    struct mel *m = mkm(7);
+    int i;
+    VRT_OP0("hash.insert", "table declared by macro with an array member designator");
+    cstl_hash_resize(&hs, 5, NULL);
+    for (i = 0; i < 7; i++) cstl_hash_insert(&hs, (size_t)(1000 + i), &m[i]);
+    for (i = 0; i < 7; i++) CK(cstl_hash_find(&hs, (size_t)(1000 + i), NULL, NULL) == &m[i], "macro.hash.find", "element %d not found under its key", i);
+    cstl_hash_clear(&hs, NULL);
+    vrt_free(m);
+    VRT_COUNT("reread.macro-declared-containers");
+}
+
+/* ---- arguments of other arithmetic types, literal constants ----
+ * A function call converts each argument to the parameter's type as if by assignment; a macro twin of a function computes
+ * in the argument's own type.  A negative int passed for a size_t key, a character constant for an index ... */
+static __attribute__((noinline)) void conv_hash(void)
+{
+    const int k = -7, m = 16;
+    const short sk = -300;
+    const size_t want = (size_t)k % (size_t)m, want2 = (size_t)sk % 9u;
+    size_t r;
+    VRT_OP0("hash.div", "negative int / short arguments are converted to size_t at the call");
+    r = cstl_hash_div(k, m);
+    CK(r == want, "conv.hash.div", "cstl_hash_div(-7, 16) with int arguments returned %zu, a call converts them to size_t: %zu", r, want);
+    r = cstl_hash_div(sk, 9);
+    CK(r == want2, "conv.hash.div", "cstl_hash_div((short)-300, 9) returned %zu, expected %zu", r, want2);
+    r = cstl_hash_div(-1, 3);
+    CK(r == (size_t)-1 % 3u, "conv.hash.div", "cstl_hash_div(-1, 3) returned %zu, expected %zu", r, (size_t)-1 % 3u);
+    r = cstl_hash_mul(k, m);
+    CK(r < 16 && r == cstl_hash_mul((size_t)k, (size_t)m), "conv.hash.mul", "cstl_hash_mul(-7, 16) with int arguments returned %zu", r);
+    r = cstl_hash_mul(-1, 3);
+    CK(r < 3, "conv.hash.mul", "cstl_hash_mul(-1, 3) returned %zu", r);
+    VRT_COUNT("reread.conversion-calls");
+}
+static __attribute__((noinline)) void conv_vector(void)
+{
+    struct cstl_vector v;
+    const unsigned char uc = 3;
+    const signed char sc = 2;
+    const long long ll = 4;
+    size_t i;
+    cstl_vector_init(&v, sizeof(uint32_t));
+    cstl_vector_resize(&v, (unsigned char)6);
+    for (i = 0; i < 6; i++) *(uint32_t *)cstl_vector_at(&v, i) = (uint32_t)(10 + i);
+    VRT_OP0("vector.at", "index arguments of types unsigned char, signed char, long long, character constant, bool expression");
+    CK(*(uint32_t *)cstl_vector_at(&v, uc) == 13 && *(uint32_t *)cstl_vector_at(&v, sc) == 12 && *(uint32_t *)cstl_vector_at(&v, ll) == 14
+       && *(uint32_t *)cstl_vector_at(&v, 'b' - 'a') == 11 && *(const uint32_t *)cstl_vector_at_const(&v, uc > 2) == 11 && *(uint32_t *)cstl_vector_at(&v, 5.0) == 15,
+       "conv.vector.at", "at() with a small-integer / floating index argument returned the wrong element");
+    CK(VRT_ABORTS((void)cstl_vector_at(&v, -1)), "conv.vector.at.negative", "at(&v, -1) (converted to SIZE_MAX) returned");
+    CK(VRT_ABORTS((void)cstl_vector_at(&v, sc - 3)), "conv.vector.at.negative", "at(&v, (signed char)2 - 3) returned");
+    cstl_vector_clear(&v);
+    VRT_COUNT("reread.conversion-calls");
+}
+static __attribute__((noinline)) void conv_string(void)
+{
+    cstl_string_t s;
+    cstl_wstring_t w;
+    cstl_string_init(&s); cstl_wstring_init(&w);
+    /* a string that is not empty but starts with a NUL: resize() fills with NULs */
+    VRT_OP0("string.compare_str", "literal arguments; a non-empty string of NULs");
+    cstl_string_resize(&s, 3); cstl_wstring_resize(&w, 3);
+    CK(cstl_string_size(&s) == 3 && cstl_string_compare_str(&s, "") == strcmp(cstl_string_str(&s), "") && cstl_string_compare_str(&s, "") == 0,
+       "conv.string.compare-literal-empty", "compare_str(s, \"\") of a string of three NULs is %d, strcmp says 0", cstl_string_compare_str(&s, ""));
+    CK(cstl_wstring_compare_str(&w, L"") == 0, "conv.wstring.compare-literal-empty", "compare_str(w, L\"\") of a string of three NULs is %d, wcscmp says 0", cstl_wstring_compare_str(&w, L""));
+    CK(cstl_string_compare_str(&s, "a") < 0 && cstl_wstring_compare_str(&w, L"a") < 0, "conv.string.compare-literal", "compare_str with the literal \"a\"");
+    *cstl_string_at(&s, 0) = 'a'; *cstl_wstring_at(&w, 0) = L'a';
+    CK(cstl_string_compare_str(&s, "a") == 0 && cstl_string_compare_str(&s, "") > 0 && cstl_wstring_compare_str(&w, L"a") == 0 && cstl_wstring_compare_str(&w, L"") > 0,
+       "conv.string.compare-literal", "compare_str of \"a\\0\\0\" with literals");
+    CK(cstl_string_find_ch(&s, 'a', 0) == 0 && cstl_string_find_ch(&s, 'a', 1) == -1 && cstl_wstring_find_ch(&w, L'a', 0) == 0, "conv.string.find-literal", "find_ch with character constants");
+    CK(*cstl_string_at(&s, '\0') == 'a' && *cstl_string_at_const(&s, (signed char)0) == 'a', "conv.string.at", "at() with a character-constant index");
+    cstl_string_clear(&s); cstl_wstring_clear(&w);
+    VRT_COUNT("reread.conversion-calls");
+}
+
+/* ---- names a macro author would pick ----
+ * A statement macro that copies an argument into a block-local captures the caller's identifier of the same name
+ * (`struct cstl_rbtree * const tree = (tree);`).  The same calls once more through variables named like the nouns and
+ * like the parameter names of the prototypes. */
+static __attribute__((noinline)) void names_trees(void)
+{
+    struct cstl_bintree bt_obj;
+    struct cstl_rbtree rt_obj;
+    struct cstl_bintree *const bt = &bt_obj, *const tree_b = bt;
+    struct cstl_rbtree *const t = &rt_obj, *const tree = t, *const rt = t;
+    cstl_compare_func_t *const cmp = cmp_el;
+    cstl_xtor_func_t *const clr = noop;
+    void *const priv = NULL, *p;
+    size_t size, min, max;
+    int n = 0;
+    struct el *e;
+    mk();
+    keytab[0] = 1; keytab[1] = 2;
+    VRT_OP0("rbtree.clear", "arguments are variables named tree / t / bt / rt / cmp / clr / priv / e / p / size");
+    cstl_bintree_init(bt, cmp, priv, offsetof(struct el, bn)); cstl_rbtree_init(tree, cmp, priv, offsetof(struct el, rn));
+    e = E[0]; cstl_bintree_insert(tree_b, e, NULL); cstl_rbtree_insert(rt, e, NULL);
+    e = E[1]; cstl_bintree_insert(bt, e, NULL); cstl_rbtree_insert(t, e, NULL);
+    p = (void *)cstl_rbtree_find(tree, e, NULL); size = cstl_rbtree_size(tree);
+    CK(p == e && size == 2 && cstl_bintree_find(bt, e, NULL) == e && cstl_bintree_size(tree_b) == 2, "names.trees.find", "find/size through variables named tree/bt");
+    cstl_rbtree_height(tree, &min, &max); cstl_bintree_foreach(bt, once_bvisit, &n, CSTL_BINTREE_FOREACH_DIR_FWD); cstl_rbtree_foreach(rt, once_bvisit, &n, CSTL_BINTREE_FOREACH_DIR_FWD);
+    CK(max == 2 && n == 8, "names.trees.foreach", "height %zu, %d visits", max, n);
+    ncallbacks = 0;
+    cstl_rbtree_clear(tree, clr, priv); cstl_bintree_clear(bt, clr, priv);
+    CK(ncallbacks == 4 && cstl_rbtree_size(t) == 0 && cstl_bintree_size(bt) == 0, "names.trees.clear", "clear(tree, clr, priv): %d callbacks for 2 + 2 elements", ncallbacks);
+    unmk();
+    VRT_COUNT("reread.named-variable-calls");
+}
+static __attribute__((noinline)) void names_heap(void)
+{
+    struct cstl_heap heap_obj, *const heap = &heap_obj, *const h = heap;
+    cstl_compare_func_t *const cmp = cmp_el;
+    cstl_xtor_func_t *const clr = noop;
+    void *const priv = NULL;
+    const void *p;
+    struct el *e;
+    size_t size;
+    mk();
+    keytab[0] = 1; keytab[1] = 2;
+    VRT_OP0("heap.clear", "arguments are variables named heap / h / cmp / clr / priv / e / p / size");
+    cstl_heap_init(heap, cmp, priv, offsetof(struct el, hn));
+    e = E[0]; cstl_heap_push(heap, e); e = E[1]; cstl_heap_push(h, e);
+    p = cstl_heap_get(heap); size = cstl_heap_size(heap);
+    CK(p == e && size == 2, "names.heap.get", "get/size through a variable named heap");
+    ncallbacks = 0;
+    cstl_heap_clear(heap, clr);
+    CK(ncallbacks == 2 && cstl_heap_size(h) == 0 && cstl_heap_get(heap) == NULL, "names.heap.clear", "clear(heap, clr): %d callbacks for 2 elements", ncallbacks);
+    unmk();
+    VRT_COUNT("reread.named-variable-calls");
+}
+static __attribute__((noinline)) void names_lists(int dl)
+{
+    struct cstl_dlist dobj, *const l = &dobj, *const list = l;
+    struct cstl_slist sobj, *const sl = &sobj, *const slist = sl;
+    cstl_xtor_func_t *const clr = noop;
+    void *p, *e;
+    size_t size;
+    mk();
+    VRT_OP0("list.clear", "arguments are variables named list / l / sl / clr / e / p / size");
+    if (dl) {
+        cstl_dlist_init(list, offsetof(struct el, dn));
+        e = E[0]; cstl_dlist_push_back(list, e); e = E[1]; cstl_dlist_push_front(l, e);
+        p = cstl_dlist_front(list); size = cstl_dlist_size(list);
+        CK(p == e && size == 2 && cstl_dlist_back(l) == E[0], "names.dlist.front", "front/size/back through a variable named list");
+        ncallbacks = 0; cstl_dlist_clear(list, clr);
+        CK(ncallbacks == 2 && cstl_dlist_size(l) == 0, "names.dlist.clear", "clear(list, clr): %d callbacks for 2 elements", ncallbacks);
+    } else {
+        cstl_slist_init(slist, offsetof(struct el, sn));
+        e = E[0]; cstl_slist_push_back(slist, e); e = E[1]; cstl_slist_push_front(sl, e);
+        p = cstl_slist_front(slist); size = cstl_slist_size(slist);
+        CK(p == e && size == 2 && cstl_slist_back(sl) == E[0], "names.slist.front", "front/size/back through a variable named slist");
+        ncallbacks = 0; cstl_slist_clear(slist, clr);
+        CK(ncallbacks == 2 && cstl_slist_size(sl) == 0, "names.slist.clear", "clear(slist, clr): %d callbacks for 2 elements", ncallbacks);
+    }
+    unmk();
+    VRT_COUNT("reread.named-variable-calls");
+}
+static __attribute__((noinline)) void names_map(void)
+{
+    cstl_map_t map_obj, *const map = &map_obj, *const m = map;
+    cstl_compare_func_t *const cmp = cmp_int;
+    cstl_xtor_func_t *const clr = noop;
+    void *const priv = NULL;
+    static int key = 4, val = 5;
+    int *const k = &key, *const v = &val;
+    cstl_map_iterator_t it, *const i = &it;
+    size_t size;
+    VRT_OP0("map.clear", "arguments are variables named map / m / cmp / clr / priv / key / k / v / i / size");
+    cstl_map_init(map, cmp, priv);
+    CK(cstl_map_insert(map, k, v, i) == 0 && i->key == k && i->val == v, "names.map.insert", "insert through variables named map/k/v/i");
+    cstl_map_find(m, &key, i); size = cstl_map_size(map);
+    CK(size == 1 && !cstl_map_iterator_eq(i, cstl_map_iterator_end(map)), "names.map.find", "find/size through a variable named map");
+    ncallbacks = 0; cstl_map_clear(map, clr, priv);
+    CK(ncallbacks == 1 && cstl_map_size(m) == 0, "names.map.clear", "clear(map, clr, priv): %d callbacks for 1 entry", ncallbacks);
+    VRT_COUNT("reread.named-variable-calls");
+}
+static __attribute__((noinline)) void names_hash(void)
+{
+    struct cstl_hash hash_obj, *const hash = &hash_obj, *const h = hash;
+    cstl_xtor_func_t *const clr = noop;
+    const size_t k = 77, count = 8, n = 8;
+    void *e, *p;
+    size_t size;
+    mk();
+    VRT_OP0("hash.clear", "arguments are variables named hash / h / clr / k / e / p / count / n / size");
+    cstl_hash_init(hash, offsetof(struct el, xn)); cstl_hash_resize(hash, count, NULL); (void)n;
+    e = E[0]; cstl_hash_insert(hash, k, e);
+    p = cstl_hash_find(h, k, NULL, NULL); size = cstl_hash_size(hash);
+    CK(p == e && size == 1, "names.hash.find", "find/size through a variable named hash");
+    ncallbacks = 0; cstl_hash_clear(hash, clr);
+    CK(ncallbacks == 1 && cstl_hash_size(h) == 0, "names.hash.clear", "clear(hash, clr): %d callbacks for 1 element", ncallbacks);
+    unmk();
+    VRT_COUNT("reread.named-variable-calls");
+}
+static __attribute__((noinline)) void names_vector(void)
+{
+    struct cstl_vector vec, *const v = &vec, *const vector = v;
+    const size_t sz = 5, i = 2;
+    size_t size;
+    void *p;
+    VRT_OP0("vector.at", "arguments are variables named vector / v / sz / i / p / size");
+    cstl_vector_init(vector, sizeof(uint32_t)); cstl_vector_resize(v, sz);
+    p = cstl_vector_at(vector, i); size = cstl_vector_size(vector);
+    CK(size == 5 && p == (char *)cstl_vector_data(v) + 8, "names.vector.at", "at/size through a variable named vector");
+    cstl_vector_clear(vector);
+    CK(cstl_vector_size(v) == 0 && cstl_vector_capacity(vector) == 0, "names.vector.clear", "clear(vector)");
+    VRT_COUNT("reread.named-variable-calls");
+}
+static __attribute__((noinline)) void names_string(void)
+{
+    cstl_string_t str_obj, *const s = &str_obj, *const string = s;
+    const char *const str = "abc";
+    const size_t pos = 1, n = 1, i = 2, sz = 2;
+    size_t size;
+    VRT_OP0("string.erase", "arguments are variables named string / s / str / pos / n / i / sz / size");
+    cstl_string_init(string); cstl_string_set_str(s, str);
+    cstl_string_erase(string, pos, n); size = cstl_string_size(string);
+    CK(size == 2 && strcmp(cstl_string_str(s), "ac") == 0 && *cstl_string_at(string, i - 1) == 'c', "names.string.erase", "erase/size/at through a variable named string");
+    cstl_string_resize(string, sz); cstl_string_clear(string);
+    CK(cstl_string_size(s) == 0, "names.string.clear", "clear(string)");
+    VRT_COUNT("reread.named-variable-calls");
+}
+static __attribute__((noinline)) void names_array(void)
+{
+    cstl_array_t array_obj, *const a = &array_obj, *const array = a, slice_obj, *const slice = &slice_obj;
+    const size_t nm = 6, sz = 4, i = 3, beg = 1, end = 4;
+    size_t size;
+    void *p, *buf;
+    VRT_OP0("array.at", "arguments are variables named array / a / slice / nm / sz / i / beg / end / buf / p / size");
+    cstl_array_init(array); cstl_array_init(slice);
+    cstl_array_alloc(array, nm, sz);
+    p = cstl_array_at(array, i); size = cstl_array_size(array); buf = cstl_array_data(a);
+    CK(size == 6 && p == (char *)buf + 12, "names.array.at", "at/size/data through a variable named array");
+    cstl_array_slice(array, beg, end, slice);
+    CK(cstl_array_size(slice) == 3 && cstl_array_at(slice, 0) == (char *)buf + 4, "names.array.slice", "slice(array, beg, end, slice)");
+    cstl_array_reset(slice); cstl_array_reset(array);
+    CK(cstl_array_size(a) == 0 && vrt_lib_live() == 0, "names.array.reset", "reset(array)");
+    VRT_COUNT("reread.named-variable-calls");
+}
+static __attribute__((noinline)) void names_memory(void)
+{
+    cstl_shared_ptr_t sp_obj, *const sp = &sp_obj, *const ptr = sp, e_obj, *const ex = &e_obj;
+    cstl_weak_ptr_t wp_obj, *const wp = &wp_obj;
+    cstl_unique_ptr_t up_obj, *const up = &up_obj;
+    cstl_xtor_func_t *const clr_fn = clr;
+    const size_t sz = 24, size = 24;
+    void *p, *priv = NULL;
+    VRT_OP0("shared_ptr.reset", "arguments are variables named sp / ptr / wp / up / sz / size / priv / p");
+    cstl_shared_ptr_init(sp); cstl_shared_ptr_init(ex); cstl_weak_ptr_init(wp); cstl_unique_ptr_init(up);
+    cleared = 0;
+    cstl_shared_ptr_alloc(ptr, sz, clr_fn); p = cstl_shared_ptr_get(sp);
+    cstl_shared_ptr_share(sp, ex); cstl_weak_ptr_from(wp, ptr); cstl_shared_ptr_reset(ex); cstl_weak_ptr_lock(wp, ex);
+    CK(p != NULL && cstl_shared_ptr_get(ex) == p && !cstl_shared_ptr_unique(ptr), "names.memory.lock", "share/from/lock through variables named sp/ptr/wp");
+    cstl_shared_ptr_reset(ex); cstl_weak_ptr_reset(wp); cstl_shared_ptr_reset(ptr);
+    cstl_unique_ptr_alloc(up, size, clr_fn, priv); cstl_unique_ptr_reset(up);
+    CK(cleared == 2 && vrt_lib_live() == 0, "names.memory.reset", "%d clear callbacks for one shared and one unique allocation", cleared);
+    VRT_COUNT("reread.named-variable-calls");
+}
+static void extra_trees(void) { macro_trees(); names_trees(); }
+static void extra_heap(void) { macro_heap(); names_heap(); }
+static void extra_hash(void) { macro_hash(); conv_hash(); names_hash(); }
+static void extra_map(void) { names_map(); }
+static void extra_vector(void) { conv_vector(); names_vector(); }
+static void extra_string(void) { conv_string(); names_string(); }
+static void extra_dlist(void) { macro_dlist(); names_lists(1); }
+static void extra_slist(void) { macro_slist(); names_lists(0); }
+static void extra_array(void) { names_array(); }
+static void extra_memory(void) { names_memory(); }
+
+static const struct { const char *name; void (*f)(void); void (*once)(void); void (*extra)(void); } fam[] = {
+    { "trees", f_trees, once_trees, extra_trees }, { "heap", f_heap, once_heap, extra_heap }, { "hash", f_hash, once_hash, extra_hash }, { "map", f_map, once_map, extra_map },
+    { "vector", f_vector, once_vector, extra_vector }, { "string", f_string, once_string, extra_string },
+    { "dlist", f_dlist, once_dlist, extra_dlist }, { "slist", f_slist, once_slist, extra_slist }, { "array", f_array, once_array, extra_array }, { "memory", f_memory, once_memory, extra_memory },
 };
 #define NFAM ((int)(sizeof(fam) / sizeof(fam[0])))
 static uint64_t ncases(void) { return 1; }
@@ -972,11 +1336,13 @@ static void run_case(uint64_t idx)
         fam[k].f();
         vrt_state("side-effect-arguments");
         fam[k].once();
+        vrt_state("macro-arguments-names-conversions");
+        fam[k].extra();
         vrt_sig(0, vrt_mix(0x4e4e, (uint64_t)k));
         VRT_COUNT("reread.families");
     }
 }
 static void winit(void) { vrt_sig_name(0, "families"); }
-static const char *const required[] = { "reread.families", "reread.rounds", "reread.once-calls", NULL };
+static const char *const required[] = { "reread.families", "reread.rounds", "reread.once-calls", "reread.named-variable-calls", NULL };
 static const struct vrt_harness H = { "reread", ncases, run_case, winit, NULL, required, 1 };
 int main(int argc, char **argv) { return vrt_main(argc, argv, &H); }
